@@ -38,7 +38,7 @@ prop("C09",
                   "a child of the program receiving SIGXCPU/SIGXFSZ ends a ptrace run as TLE/OLE (C08 reading), not treated as a C09 violation",
                   "namespace runner: the program is pid 1 of its pid namespace; the kernel only lets exits, host SIGKILL and forced (fault) signals end it, so real runs cover those; the theorem covers every signal number"],
      not_covered="kernel wait-status encoding and ptrace stop semantics are modelled (Kernel/WaitStatus.lean) and sampled by real runs, not proved",
-     level_text="The three classifiers are regenerated from /repo as Go-lite terms on every run and evaluated in the Lean kernel (decide +kernel) on the complete finite domain: every exit code 0..255 and every signal 1..64 with and without core dump, main and child pids; plus delivery of every fatal signal at its ptrace stop and non-empty explanations for Runner Error. Real runs of probe programs under all three runners cover the whole producible domain.",
+     level_text="The three classifiers are regenerated from /repo as Go-lite terms on every run and evaluated in the Lean kernel (decide +kernel) on the complete finite domain: every exit code 0..255 and every signal 1..64 with and without core dump, main and child pids; plus delivery of every fatal signal at its ptrace stop and non-empty explanations for Runner Error. Real runs of probe programs under all three runners cover the whole producible domain; container programs that signal pid 1 of their namespace with every signal keep their own verdict.",
      level_note="Trusted: Lean kernel; the extract translator + Go-lite interpreter (differentially validated against the compiled code on all 65536 wait-status patterns); wait-status encoding model; README table transcription",
      technique="Lean 4 kernel evaluation (decide +kernel) of regenerated Go-lite code over the whole finite domain + differential + exhaustive real runs",
      timeout={"quick": 1500, "thorough": 3600})
@@ -50,7 +50,7 @@ prop("C15",
      assumptions=["event order of ptrace stops is a model parameter (partial for the race part): the theorem covers every single event with every ptrace request answering ESRCH; the real race is sampled",
                   "exactness (C15_getstring_exact) is stated for C strings that lie entirely in readable memory below PATH_MAX; for strings that run into an unreadable page the returned prefix is proved to be a NUL-free prefix of the tracee's bytes (content), its maximal length there is covered by the differential"],
      not_covered="Go runtime faults outside the modelled functions are covered only by the hostile real runs; tracerHandler.Handle's decode path is C02's",
-     level_text="Theorems for every address space and every pointer: GetString never panics, returns at most PATH_MAX NUL-free bytes that are a prefix of the tracee's bytes at that address, and returns a C string lying in readable memory exactly (all of it, wherever the page boundaries fall); kernel-evaluated theorems on the regenerated tracer code that a tracee vanishing under any ptrace request (ESRCH) yields no verdict (never Runner Error / Disallowed Syscall) while a live set-regs failure still fails closed; differential on real memory and hostile real tracees (incl. programs whose main process ends while other processes of the program still run: Run must return within the watchdog)",
+     level_text="Theorems for every address space and every pointer: GetString never panics, returns at most PATH_MAX NUL-free bytes that are a prefix of the tracee's bytes at that address, and returns a C string lying in readable memory exactly (all of it, wherever the page boundaries fall); kernel-evaluated theorems on the regenerated tracer code that a tracee vanishing under any ptrace request (ESRCH) yields no verdict (never Runner Error / Disallowed Syscall) while a live set-regs failure still fails closed; differential on real memory and hostile real tracees (incl. programs whose main process ends while other processes of the program still run: Run must return within the watchdog; vfork parents; names leading into symlink cycles)",
      level_note="Trusted: Lean kernel; hand model of the string reader (differentially tied); kernel memory/ptrace assumptions; translator + Go-lite interpreter. Partial for real ptrace races (sampled)",
      technique="Lean 4 proofs (induction over the chunked read loop) + decide +kernel on regenerated Go-lite code + differential + hostile real runs")
 
@@ -61,7 +61,7 @@ prop("C08",
                   "container.Execve returns measurements but has no time/memory bound of its own: usage bounds are checked for the ptrace and namespace runners",
                   "that the child applies the prepared list in order with prlimit64 is shown by the real `report rlimits` runs here and by the launch-sequence theorems of C04/C07"],
      not_covered="writer-faster-than-reader timing beyond the sampled volumes",
-     level_text="Theorems for every limit record (exactly one entry per configured resource with cur=max, CPU hard=max(hard,soft), resources pairwise distinct so in-order application gives every configured pair and leaves the rest inherited), every usage/bound tuple (strict comparisons, memory overrides time, measured values returned), every chunking of the output (at most cap bytes retained, a prefix, everything consumed); ties to the regenerated code evaluated in the kernel; differential + real runs in all three runners",
+     level_text="Theorems for every limit record (exactly one entry per configured resource with cur=max, CPU hard=max(hard,soft), resources pairwise distinct so in-order application gives every configured pair and leaves the rest inherited), every usage/bound tuple (strict comparisons, memory overrides time, measured values returned), every chunking of the output (at most cap bytes retained, a prefix, everything consumed); ties to the regenerated code evaluated in the kernel; differential + real runs in all three runners (measured bounds also for programs that afterwards fault, abort, are terminated or exit non-zero)",
      level_note="Trusted: Lean kernel; hand models tied by sampled kernel evaluation of regenerated code and random differential; kernel rlimit/pipe semantics assumed and sampled",
      technique="Lean 4 proofs over all records/usages/streams + decide +kernel ties to regenerated Go-lite + differential + real runs")
 
@@ -74,7 +74,7 @@ prop("C04",
                   "capset is called with a single 12-byte CapUserData under a V3 header: the high word read by the kernel is whatever follows in memory (observed clean; noted as an observation)",
                   "option combinations the kernel refuses here (ptrace without a tracer, clone-into-cgroup without cgroup2 delegation) are covered by the model comparison only"],
      not_covered="LSMs, the capability bounding set",
-     level_text="Theorems for every option set (symbolic in all 29 option atoms) on the launch skeleton: filter loaded iff given and at most once, no_new_privs whenever requested or a filter is given, capability drop + locked NOROOT whenever credential or drop-caps is requested in every sync/ptrace/late-unshare combination and never otherwise, ids/session/cwd/host/domain/pivot iff requested, exec last, vfork sharing only without parent interaction; skeleton tied to the regenerated forkAndExecInChild by kernel-evaluated sample + exhaustive/sampled driver comparison each run; real launches with probe self-report (host/domain names of different lengths in every order, supplementary groups in user namespaces)",
+     level_text="Theorems for every option set (symbolic in all 29 option atoms) on the launch skeleton: filter loaded iff given and at most once, no_new_privs whenever requested or a filter is given, capability drop + locked NOROOT whenever credential or drop-caps is requested in every sync/ptrace/late-unshare combination and never otherwise, ids/session/cwd/host/domain/pivot iff requested, exec last, vfork sharing only without parent interaction; skeleton tied to the regenerated forkAndExecInChild by kernel-evaluated sample + exhaustive/sampled driver comparison each run; real launches with probe self-report (host/domain names of different lengths in every order, supplementary groups in user namespaces; sequences of launches with different filter/limit options in one container environment)",
      level_note="Trusted: Lean kernel; translator + Go-lite + abstract kernel; the skeleton<->regenerated-code tie is a comparison over option vectors (sampled in quick, 2^20 in thorough), not a proof; kernel security semantics assumed and sampled",
      technique="Lean 4 proofs over all option sets on a hand skeleton + tie to regenerated Go-lite code (decide +kernel sample, exhaustive driver sweep) + real launches")
 
@@ -83,7 +83,7 @@ prop("C06",
      assumptions=["launcher's side of the contract: every descriptor of the launching process outside the list is close-on-exec (Go opens everything so; the container init marks its stdio); pipe end and exec descriptor distinct",
                   "kernel dup3/fcntl/close semantics as modelled"],
      not_covered="the unbounded theorem is about the hand model; its agreement with the regenerated code is kernel-evaluated on the layout family and compared exhaustively for all lists of length <= 3 (quick) / <= 4 (thorough) with all placements on every run, not proved for every length; descriptors created concurrently by other goroutines are C17",
-     level_text="Theorem C06_shuffle_exact for descriptor lists of ANY length and any launcher table: after the shuffle and exec, descriptor k is the file listed at position k (closed for a marker), nothing else is open, the pipe and the exec descriptor still refer to their files at numbers above the list (helper lemmas: invariants of pass 1 and pass 2 by induction over the list, case analysis of the two moves). Tie: the regenerated forkAndExecInChild run by Go-lite on an abstract descriptor table agrees with the hand model and with the property oracle on a family of 20 adversarial layouts (kernel-evaluated), on every exhaustively enumerated small layout (driver, every run), and real launches with engineered layouts where the probe reports fstat identity of every descriptor and the Runner is deep-compared and restarted; container runs with 0..4 listed descriptors report the same table",
+     level_text="Theorem C06_shuffle_exact for descriptor lists of ANY length and any launcher table: after the shuffle and exec, descriptor k is the file listed at position k (closed for a marker), nothing else is open, the pipe and the exec descriptor still refer to their files at numbers above the list (helper lemmas: invariants of pass 1 and pass 2 by induction over the list, case analysis of the two moves). Tie: the regenerated forkAndExecInChild run by Go-lite on an abstract descriptor table agrees with the hand model and with the property oracle on a family of 20 adversarial layouts (kernel-evaluated), on every exhaustively enumerated small layout (driver, every run), and real launches with engineered layouts where the probe reports fstat identity of every descriptor and the Runner is deep-compared and restarted; container runs with 0..4 listed descriptors report the same table; launchers that hold an inheritable descriptor at the number of a slot marked 'close'",
      level_note="Trusted: Lean kernel; hand model tied to the regenerated code by kernel evaluation and exhaustive small-scope comparison; abstract descriptor table (kernel dup3/fcntl/close) assumed",
      technique="Lean 4 proof by induction over the descriptor list (pass invariants) + decide +kernel on regenerated Go-lite code + exhaustive bounded enumeration + real launches")
 
@@ -92,7 +92,7 @@ prop("C07",
      assumptions=["sethostname/setdomainname/unshare(CLONE_NEWCGROUP) failures are deliberately ignored by the launcher (documented 'not critical'); listed explicitly in Model/ForkChecked.ignorable",
                   "ptrace+seccomp configuration: Start returns at the stop, later failures surface as 'child process exit before execve' (step not named): recorded as an observation of the early-return design, see DESIGN.md"],
      not_covered="faults the kernel cannot be made to produce on demand are covered by the model-level injection only",
-     level_text="Whole-AST theorem that every raw syscall of the regenerated child is followed by its error check (or is a listed ignorable step) and that the exit helpers write the error then exit; kernel-evaluated fault injection at every step of a rich option set; per-run fault injection at every step of thousands of option sets in the driver; theorems for all inputs on the parent model (kill+wait4 before every failing return, both socket ends closed, ack only after a successful callback, returned error is the child's report); real failures induced at each reachable step",
+     level_text="Whole-AST theorem that every raw syscall of the regenerated child is followed by its error check (or is a listed ignorable step) and that the exit helpers write the error then exit; kernel-evaluated fault injection at every step of a rich option set; per-run fault injection at every step of thousands of option sets in the driver; theorems for all inputs on the parent model (kill+wait4 before every failing return, both socket ends closed, ack only after a successful callback, returned error is the child's report); real failures induced at each reachable step, also with the error channel 0..2 numbers above the scratch start of the descriptor shuffle and with an uncollected other child of the caller",
      level_note="Trusted: Lean kernel; translator + Go-lite + abstract kernel; parent side is a hand model tied by real fault injection",
      technique="Lean 4: syntactic theorem on regenerated AST + decide +kernel fault injection + proofs on parent model; fault-injection differential")
 
@@ -104,7 +104,7 @@ prop("C01",
                   "native ABI = amd64 (arm/arm64 tables are not exercised here)",
                   "C01_fail_closed / build_groups / export_lossless / cleanTrace are kernel evaluations of the regenerated glue code on samples (the validator covers the end-to-end effect for every generated policy)"],
      not_covered="a generator-correctness theorem for all policies is not proved; instead each produced program is validated (translation validation with a proved validator)",
-     level_text="Kernel-checked soundness theorem of a translation validator: if validate(prog, policy) = true then for every seccomp_data (all 2^32 numbers x all arch tags x any argument words) the cBPF program returns exactly the policy's action (cell argument over the compared constants, representatives proved sufficient); every filter produced by the real Builder.Build for generated and shipped policies (incl. >255-name groups with long jumps, every default action) is validated on each run; glue (ToSeccompAction fail-closed, group order, sockFilter, cleanTrace) evaluated on regenerated code; cleanTrace against its specification on random overlapping lists; every filter compared with its validated copy after the next Build",
+     level_text="Kernel-checked soundness theorem of a translation validator: if validate(prog, policy) = true then for every seccomp_data (all 2^32 numbers x all arch tags x any argument words) the cBPF program returns exactly the policy's action (cell argument over the compared constants, representatives proved sufficient); every filter produced by the real Builder.Build for generated and shipped policies (incl. >255-name groups with long jumps, every default action) is validated on each run; glue (ToSeccompAction fail-closed, group order, sockFilter, cleanTrace) evaluated on regenerated code; cleanTrace against its specification on random overlapping lists; every filter compared with its validated copy after the next Build; the policy that lists nothing, for every default action",
      level_note="Trusted: Lean kernel for the validator theorem; the Lean compiler for running the validator on concrete programs; cBPF machine model; third-party generator untrusted (validated)",
      technique="Lean 4 proved translation validator (cell/representative argument) applied to every real filter + decide +kernel on regenerated glue + VM cross-check",
      timeout={"quick": 1500, "thorough": 7200})
@@ -115,7 +115,7 @@ prop("C10",
      assumptions=["Go channel/goroutine scheduling beyond the modelled queues; gob framing is C19",
                   "requests fit the transport: a request whose gob encoding exceeds 32 KiB or an Open batch with more than 253 successes (SCM_MAX_FD) loses the environment; recorded as open known findings under C10/C14 (hypothesis 'request fits')"],
      not_covered="real-time promptness after transport loss is observed, not proved",
-     level_text="Kernel-evaluated exhaustive exploration of the protocol LTS for every operation kind x outcome class x sync mode under all interleavings of exit/cancel/kill/reply, lifted by induction to every finite history: after every call host and container are in sync with empty channels, every call gets exactly its own answer, a Ping afterwards always succeeds, transport loss never blocks the host; witness theorem for the pinned tree's desynchronisation; trace inclusion of real two-endpoint logs into the model; the result class of every real Execve is the class its own parameters determine; after real loss of the transport (Destroy, init killed) every one of 3-8 further calls fails within 10 s",
+     level_text="Kernel-evaluated exhaustive exploration of the protocol LTS for every operation kind x outcome class x sync mode under all interleavings of exit/cancel/kill/reply, lifted by induction to every finite history: after every call host and container are in sync with empty channels, every call gets exactly its own answer, a Ping afterwards always succeeds, transport loss never blocks the host; witness theorem for the pinned tree's desynchronisation; trace inclusion of real two-endpoint logs into the model; the result class of every real Execve is the class its own parameters determine; after real loss of the transport (Destroy, init killed) every one of 3-8 further calls fails within 10 s; every Execve of a history answers within its watchdog (incl. a refused after-exec synchronisation of a long-running program)",
      level_note="Trusted: Lean kernel; the protocol model is hand written and tied to the code by trace inclusion on sampled histories (not a proof of refinement)",
      technique="Lean 4 exhaustive LTS exploration (decide +kernel) + induction over histories + trace-inclusion correspondence")
 
@@ -126,7 +126,7 @@ prop("C11",
      assumptions=["real-time bounds (returns within 3 s) are observed by the harness, not proved; scheduler behaviour is a model parameter (all interleavings of the modelled steps)",
                   "SIGKILL of a process group terminates every member, stopped or not (kernel law)"],
      not_covered="namespace runner: Start returns only after the exec, so the group exists when the canceller can fire; covered by real runs only",
-     level_text="Exhaustive kernel-evaluated exploration of the cancellation race: under every interleaving the run ends, after the canceller's kill the program is never running again, Normal is only reported for a program that ended on its own before that kill; witness for the pinned tree's lost cancellation; tie of the repeated group kill to the regenerated trace loop; container cancellation terminates in sync in every interleaving; real cancellation sweeps in all three runners incl. the pinned early-cancel race, cancelled container runs of programs whose descendants left the process group followed by a run that must be served, Destroy during in-flight calls",
+     level_text="Exhaustive kernel-evaluated exploration of the cancellation race: under every interleaving the run ends, after the canceller's kill the program is never running again, Normal is only reported for a program that ended on its own before that kill; witness for the pinned tree's lost cancellation; tie of the repeated group kill to the regenerated trace loop; container cancellation terminates in sync in every interleaving; real cancellation sweeps in all three runners incl. the pinned early-cancel race, cancelled container runs of programs whose descendants left the process group followed by a run that must be served, Destroy during in-flight calls; every run of the sweep has its own watchdog while other children of the host process are alive",
      level_note="PARTIAL: theorem about code composed with assumed kernel/scheduler model; real-time promptness observed only. Trusted: Lean kernel, hand LTS, translator + Go-lite",
      technique="Lean 4 exhaustive LTS exploration (decide +kernel) + regenerated-code tie + real cancellation sweeps")
 
@@ -135,7 +135,7 @@ prop("C16",
                    "extracted facts (Gen.C16): every select statement of the container package with its communication clauses, the SysProcAttr of the init, the ptrace options"],
      assumptions=["kernel laws: PDEATHSIG is delivered when the creating thread's process dies; EOF is delivered to a blocked or later recvmsg; exit of a pid-namespace init kills the namespace; tracer exit kills PTRACE_O_EXITKILL tracees; PR_SET_PDEATHSIG set by the traced child covers the time before its first stop"],
      not_covered="blocking channel operations of the container outside select statements (waitPid/waitAll hand-offs to the reaper) are bounded by the preceding kill(-1); covered by the crash-point runs",
-     level_text="Kernel-evaluated theorem: from every reachable state of every operation, once the host is gone every continuation of the container ends in exit (by EOF alone); extracted-code theorems: every blocking select of the container has the done alternative, Pdeathsig=SIGKILL, PTRACE_O_EXITKILL; for every option set with ptrace the child asks for PR_SET_PDEATHSIG (and checks its parent) before PTRACE_TRACEME (theorem on the fork skeleton, which C04 ties to the regenerated child); a real controller process is SIGKILLed at each announced protocol point, shortly after the synchronisation of a traced launch, and at random instants and the pid namespace / process group must be empty within the bound",
+     level_text="Kernel-evaluated theorem: from every reachable state of every operation, once the host is gone every continuation of the container ends in exit (by EOF alone); extracted-code theorems: every blocking select of the container has the done alternative, Pdeathsig=SIGKILL, PTRACE_O_EXITKILL; for every option set with ptrace the child asks for PR_SET_PDEATHSIG (and checks its parent) before PTRACE_TRACEME (theorem on the fork skeleton, which C04 ties to the regenerated child); a real controller process is SIGKILLed at each announced protocol point, shortly after the synchronisation of a traced launch, at random instants, inside the synchronisation callback of a ptrace and of a namespace launch, and with the tracer used directly on a launcher without a seccomp filter; the pid namespace / process group must be empty within the bound (open known finding: a child created with clone(CLONE_UNTRACED))",
      level_note="PARTIAL: kernel delivery laws assumed. Trusted: Lean kernel, hand protocol model (tied by C10's trace inclusion), extractor",
      technique="Lean 4 exhaustive crash-point exploration (decide +kernel) + extracted-code facts + crash-point enumeration against real processes")
 
@@ -158,7 +158,7 @@ prop("C14",
                   "batches with more than 253 successes exceed SCM_MAX_FD (open known finding under C10/C14: request fits)",
                   "a dishonest container attaching descriptors to an *error* reply leaks them in the host (observation; the container init is trusted code)"],
      not_covered="kernel open semantics",
-     level_text="Theorems for every batch and every success/failure pattern: results are index-aligned (item k is a file iff item k succeeded, for item k's path), a descriptor is produced only where lstat found nothing or a regular file, an honest reply is always accepted, and for ANY reply an inconsistency closes every received descriptor; tie to regenerated handleOpen; real batches with planted symlinks/FIFOs/sockets/directories checked by inode identity and access mode through /proc/<init>/root; scripted dishonest peer",
+     level_text="Theorems for every batch and every success/failure pattern: results are index-aligned (item k is a file iff item k succeeded, for item k's path), a descriptor is produced only where lstat found nothing or a regular file, an honest reply is always accepted, and for ANY reply an inconsistency closes every received descriptor; tie to regenerated handleOpen; real batches with planted symlinks/FIFOs/sockets/directories checked by inode identity and access mode through /proc/<init>/root; length-0 batches followed by checked operations; a 250-item batch repeated on one environment; scripted dishonest peer",
      level_note="Trusted: Lean kernel; hand model tied by kernel-evaluated samples of regenerated code + differential; file-system outcomes parametric",
      technique="Lean 4 proof by induction over batches + decide +kernel tie to regenerated Go-lite + differential with planted objects and a scripted peer")
 
@@ -168,7 +168,7 @@ prop("C19",
      assumptions=["kernel SEQPACKET/SCM semantics as modelled; Go's ReadMsgUnix sets MSG_CMSG_CLOEXEC",
                   "open known findings: (1) a zero-length payload is not delivered transparently (net.UnixConn pads it with a dummy byte when control data is attached, and it reads as EOF otherwise); (2) gob layer: an oversize (unsent) message that was the first use of its type leaves the encoder ahead of the decoder and every later message undecodable — unreachable from the container package, whose first messages (ping/conf and their replies) are small"],
      not_covered="the gob framing is covered by the differential only (the model has no gob)",
-     level_text="Theorems over all histories and buffer sizes on the socket model: a receive hands over exactly one sent message (bytes, files in order, credentials) or rejects it without delivering data; with large enough buffers receives are the sends in FIFO order; more than SCM_MAX_FD descriptors are refused by the sender; no descriptor installed by the kernel stays open unaccounted (witness for the pinned tree's leak); differential on real socketpairs incl. 252/253/254 descriptors and buffer±1 payloads, receives with a full descriptor table; gob layer around the 32 KiB cap",
+     level_text="Theorems over all histories and buffer sizes on the socket model: a receive hands over exactly one sent message (bytes, files in order, credentials) or rejects it without delivering data; with large enough buffers receives are the sends in FIFO order; more than SCM_MAX_FD descriptors are refused by the sender; no descriptor installed by the kernel stays open unaccounted (witness for the pinned tree's leak); differential on real socketpairs incl. 252/253/254 descriptors and buffer±1 payloads, receives with a full descriptor table, full-duplex exchanges on one Socket value; gob layer around the 32 KiB cap",
      level_note="Trusted: Lean kernel; hand model tied by differential; kernel socket semantics assumed. Two open known findings (zero-length payload, gob unsent-oversize first use)",
      technique="Lean 4 proofs by induction over operation histories + differential correspondence on real socketpairs")
 
@@ -179,7 +179,7 @@ prop("C13",
                   "'every writable mount' = the tmpfs mounts (default table); a caller-supplied read-write bind mount is host data and is not cleaned by Reset (documented reading)",
                   "kernel seal semantics as tabulated"],
      not_covered="kernel unlink/seal implementation",
-     level_text="Theorem for every mount table on the reset model (exactly the tmpfs targets are cleaned, in order, success only without failure) tied to the regenerated handleReset by kernel evaluation (filter, path join, order, error reply at first failure); DupToMemfd's create-copy-seal-rewind order with close on every failing path on regenerated code; every modifying operation denied under the compiled seal set; hostile trees (incl. 5000 entries directly under a mount root) + host-side inspection of the mounts, DupToMemfd fed by readers using every licence of the io.Reader contract, sealed memfd attacked through the descriptor, /proc/self/fd and from the exec'd program",
+     level_text="Theorem for every mount table on the reset model (exactly the tmpfs targets are cleaned, in order, success only without failure) tied to the regenerated handleReset by kernel evaluation (filter, path join, order, error reply at first failure); DupToMemfd's create-copy-seal-rewind order with close on every failing path on regenerated code; every modifying operation denied under the compiled seal set; hostile trees (incl. 5000 entries directly under a mount root) + host-side inspection of the mounts, DupToMemfd fed by readers using every licence of the io.Reader contract and by files read from offsets / pseudo-files whose size says nothing, sealed memfd attacked through the descriptor, /proc/self/fd and from the exec'd program",
      level_note="PARTIAL: proof about the model/regenerated glue + differential; kernel unlink/seal semantics assumed",
      technique="Lean 4 proof on the reset model + decide +kernel on regenerated Go-lite code + hostile-tree differential")
 
@@ -192,7 +192,7 @@ prop("C20",
                   "usage_usec*1000 < 2^64 (584 years of CPU time) — the uint64 result wraps beyond",
                   "the v2 hierarchy of this machine has no controllers delegated: v2 limit files are covered by crafted directories (hook VerifNewV2At), not by the kernel"],
      not_covered="kernel cgroup accounting itself; v2 limit enforcement by the kernel (no controllers on this machine's cgroup2)",
-     level_text="Theorems for every history of mkdirs (arbitrarily interleaved creators), Destroys and external changes: every directory a Destroy removes was made by that very handle, never a pre-existing one; live handles never share a created directory; a handle on an existing group removes nothing; every interleaving of two concurrent creators has exactly one creator with the atomic mkdir (and a double-owner witness for the pinned stat-then-MkdirAll); any CPU value returned is 1000 x a usage_usec field; regenerated Destroy/EnsureDirExists/AddProc facts by kernel evaluation; differential on real v1 and v2 hierarchies",
+     level_text="Theorems for every history of mkdirs (arbitrarily interleaved creators), Destroys and external changes: every directory a Destroy removes was made by that very handle, never a pre-existing one; live handles never share a created directory; a handle on an existing group removes nothing; every interleaving of two concurrent creators has exactly one creator with the atomic mkdir (and a double-owner witness for the pinned stat-then-MkdirAll); any CPU value returned is 1000 x a usage_usec field; regenerated Destroy/EnsureDirExists/AddProc facts by kernel evaluation; differential on real v1 and v2 hierarchies with a ledger of every limit written, re-checked after every later operation",
      level_note="Trusted: Lean kernel; hand model tied by differential on the real hierarchies; kernel mkdir/rmdir atomicity assumed. Three defects repaired (fix: commits)",
      technique="Lean 4 proofs by induction over operation histories + exhaustive interleaving exploration (decide) + Go-lite on regenerated code + differential on real cgroup hierarchies",
      timeout={"quick": 900, "thorough": 3600})
@@ -207,7 +207,7 @@ prop("C02",
                   "the tracee's /proc is procfs; procfs magic links (cwd/root/fd/N) are followed through their readlink text",
                   "syscalls the handler has no path rule for (symlink, link, mkdir, mknod, chown, truncate, ...) go to CheckSyscall(name): no path is presented, the property does not speak"],
      not_covered="errors inside the walk (ENOENT/ENOTDIR/EACCES in the middle): no object exists, the presented path is not constrained; 32-bit/x32 ABIs",
-     level_text="Theorems for every file system, directory, component list and link budget: the resolver model returns exactly the kernel walk's result (soundness, completeness, determinism of the walk), terminates within |todo| + budget*L + 1 iterations, and reports its cap only where the kernel has no resolution; every open that can write/create/truncate is classified write for every flag word; int(int32(reg)) equals the kernel's int dfd for every 64-bit register; the regenerated Handle passes the ABI's (dirfd, path) registers to a check of the right class for each of 26 syscalls and every dirfd site is an int32 chain (kernel-evaluated on regenerated code); regenerated resolver on concrete forests; differential against the kernel on random forests (incl. histories that change the working directory) and under real traced runs",
+     level_text="Theorems for every file system, directory, component list and link budget: the resolver model returns exactly the kernel walk's result (soundness, completeness, determinism of the walk), terminates within |todo| + budget*L + 1 iterations, and reports its cap only where the kernel has no resolution; every open that can write/create/truncate is classified write for every flag word; int(int32(reg)) equals the kernel's int dfd for every 64-bit register; the regenerated Handle passes the ABI's (dirfd, path) registers to a check of the right class for each of 26 syscalls and every dirfd site is an int32 chain (kernel-evaluated on regenerated code); regenerated resolver on concrete forests; differential against the kernel on random forests (incl. histories that change the working directory) and under real traced runs (names lying in one page of the tracee's memory or across a page boundary at a random byte)",
      level_note="Trusted: Lean kernel; hand model of the loop tied to the regenerated function by kernel-evaluated cases and the per-run differential (not by a proof about the interpreter); kernel resolution semantics as specified by `Walk` and sampled against the real kernel. Three defects repaired (fix: commits)",
      technique="Lean 4 proofs (induction over fuel / over the Walk derivation) + decide +kernel on regenerated Go-lite code + differential against the kernel's resolution and real traced runs",
      timeout={"quick": 900, "thorough": 3600})
@@ -220,7 +220,7 @@ prop("C03",
                   "programs whose processes run one after the other (the parent waits/joins): program order is the order of events; concurrent siblings are exercised by C17",
                   "the launcher stops itself before loading the filter (C04/C07 order theorems) so the tracer is attached before the first filtered syscall"],
      not_covered="x32/i386 syscall entry; a tracee killed by an outside SIGKILL while stopped (ESRCH paths are kernel-evaluated on regenerated code only)",
-     level_text="Theorems for every program, process tree, option set and decision function: every call that took effect was allowed by the filter or by the handler in a traced process; a killed call (handler or filter) ends the run as Disallowed Syscall, does not execute and nothing after it happens; a banned call does not execute and the program sees -BanRet; an allowed call executes; with the regenerated option word every descendant is traced; after a ban the kernel skips the call for every register content, after allow the registers are untouched; the regenerated handleTrap computes the hand model (kernel-evaluated incl. vanished tracee); differential on real traced runs",
+     level_text="Theorems for every program, process tree, option set and decision function: every call that took effect was allowed by the filter or by the handler in a traced process; a killed call (handler or filter) ends the run as Disallowed Syscall, does not execute and nothing after it happens; a banned call does not execute and the program sees -BanRet; an allowed call executes; with the regenerated option word every descendant is traced; after a ban the kernel skips the call for every register content, after allow the registers are untouched; the regenerated handleTrap computes the hand model (kernel-evaluated incl. vanished tracee); differential on real traced runs, incl. multi-threaded programs in which one thread makes a filter-killed call, and bans under five configured error values",
      level_note="Trusted: Lean kernel; kernel ptrace/seccomp rules are modelled (assumed) and sampled by the real runs; hand model tied to regenerated code by kernel evaluation on a finite register sample. One defect repaired (fix: commit)",
      technique="Lean 4 proofs by induction over programs + decide +kernel on regenerated Go-lite code + differential on real ptrace runs",
      timeout={"quick": 900, "thorough": 3600})
@@ -234,7 +234,7 @@ prop("C05",
                   "the container's MaskPaths need /dev/null inside the container (open known finding mask-needs-dev-null)",
                   "what a bound host directory contains is the caller's choice: 'nothing of the host outside the declared bind sources'"],
      not_covered="device nodes and suid semantics of the bound trees (flags are checked, kernel enforcement is not); overlay/shared-subtree propagation other than the initial MS_PRIVATE",
-     level_text="Theorem for EVERY mount table (C05_namespace): if the sequence succeeds the namespace is the read-only root tmpfs followed by exactly the configured entries with their declared file system and read-only bit (the remount lands on the mount just made), followed by the masks; the host tree is detached and the namespace was made recursively private first (later mount events of the host do not enter); every directory created in the root is a prefix of a configured target or symlink path; writable(path) = the landing mount is not read-only. Kernel-evaluated: the operation sequences of the regenerated raw-child and container code equal the skeleton on tables with ro/rw directory and file binds, nested targets, tmpfs, proc ro/rw, symlinks, file and directory masks; the builder's flag words. Differential on both real implementations",
+     level_text="Theorem for EVERY mount table (C05_namespace): if the sequence succeeds the namespace is the read-only root tmpfs followed by exactly the configured entries with their declared file system and read-only bit (the remount lands on the mount just made), followed by the masks; the host tree is detached and the namespace was made recursively private first (later mount events of the host do not enter); every directory created in the root is a prefix of a configured target or symlink path; writable(path) = the landing mount is not read-only. Kernel-evaluated: the operation sequences of the regenerated raw-child and container code equal the skeleton on tables with ro/rw directory and file binds, nested targets, tmpfs, proc ro/rw, symlinks, file and directory masks; the builder's flag words. Differential on both real implementations, incl. the empty table and a table whose every entry is filtered out",
      level_note="Trusted: Lean kernel; kernel mount semantics are modelled (assumed) and sampled on the real kernel by the differential; skeleton tied to regenerated code by kernel evaluation on a finite set of tables plus the per-run driver comparison. Two open known findings",
      technique="Lean 4 proof by induction over the mount table + decide +kernel on regenerated Go-lite code + differential on real mount namespaces",
      timeout={"quick": 900, "thorough": 3600})
@@ -248,7 +248,7 @@ prop("C17",
                   "Go runtime: os.Pipe/os.Open/net create descriptors close-on-exec under ForkLock (the library's own raw creations are checked, the runtime's are trusted)",
                   "programs do not leave their process group (C12's precondition) — a program that does can be collected by nobody"],
      not_covered="the Go scheduler and the kernel are not modelled: an interleaving-dependent defect outside the three mechanisms (a shared package-level variable, a goroutine leak) is visible only to the concurrent differential and the race detector, which sample schedules",
-     level_text="Theorems over ALL schedules and any number of runs: with atomically close-on-exec creations no forked program inherits another run's descriptor (witness for the non-atomic case); with the selectors the code uses a wait of one run can only return that run's processes (witness for wait4(-1)); with the mutex around every request/reply pair every caller receives the reply to its own request (witness without the mutex); kernel-evaluated facts that the regenerated source satisfies those hypotheses. The remaining, scheduler-dependent part is sampled: 16-way concurrent differential against solo runs, race detector",
+     level_text="Theorems over ALL schedules and any number of runs: with atomically close-on-exec creations no forked program inherits another run's descriptor (witness for the non-atomic case); with the selectors the code uses a wait of one run can only return that run's processes (witness for wait4(-1)); with the mutex around every request/reply pair every caller receives the reply to its own request (witness without the mutex); kernel-evaluated facts that the regenerated source satisfies those hypotheses. The remaining, scheduler-dependent part is sampled: 16-way concurrent differential against solo runs, a call queued on a shared environment while the previous run's 1 GiB descendant is torn down, race detector",
      level_note="PARTIAL: the theorems cover the protocol-level mechanisms under stated kernel/runtime assumptions; thread interleavings of the real runtime are sampled, not proved. Structural facts are syntactic (go/ast), tied to the source on every run",
      technique="Lean 4 proofs by induction over schedules (invariants) + decide +kernel on regenerated source facts + concurrent differential and Go race detector",
      timeout={"quick": 900, "thorough": 5400})
